@@ -173,6 +173,32 @@ class Ev:
         finally:
             self.depth -= 1
 
+    def apply(self, clo, args, fn, env):
+        """value of a closure literal applied to argument values (its captures are evaluated in the caller's environment)"""
+        c = clo
+        while isinstance(c, tuple) and c and c[0] in ("ref", "deref", "copy", "move"):
+            c = c[1]
+        if not (isinstance(c, tuple) and c and c[0] == "agg" and c[1] == "closure"):
+            raise NotEval("callback is not a closure literal")
+        ks = [k for k in self.prog.fns if k.npath == c[2]]
+        if not ks:
+            raise NotEval("closure body not found")
+        k = ks[0]
+        caps = {}
+        names = c[5] if len(c) > 5 and c[5] else ()
+        for i, op in enumerate(c[4]):
+            nm_ = names[i] if i < len(names) else str(i)
+            caps[nm_] = self.ev(op, fn, env)
+        kenv = {i + 2: a for i, a in enumerate(args)}
+        kenv["upvars"] = caps
+        self.depth += 1
+        try:
+            if self.depth > 8:
+                raise NotEval("call depth")
+            return self.ev(k.terms.ret, k, kenv)
+        finally:
+            self.depth -= 1
+
     def after_stores(self, fn, args):
         """value of *param1 after fn(param1 = &mut obj, ...) returned: its stores applied in program order"""
         if any(len(fn.cfg.succ[b]) > 1 and fn.blocks[b]["term"]["k"] == "switch" for b in range(len(fn.blocks))):
@@ -208,6 +234,15 @@ class Ev:
             if t[1] not in env:
                 raise NotEval("param %r" % (t[1],))
             return env[t[1]]
+        if k == "upvar":
+            up = env.get("upvars", {})
+            if t[1] not in up:
+                raise NotEval("captured %r" % (t[1],))
+            return up[t[1]]
+        if k == "agg" and len(t) > 3 and t[3] == "Some" and len(t[4]) == 1:
+            return ("opt", f_const(True), self.ev(t[4][0], fn, env))
+        if k == "agg" and len(t) > 3 and t[3] == "None" and not t[4]:
+            return ("opt", f_const(False), ("bool", f_const(False)))
         if k == "field":
             x = self.ev(t[1], fn, env)
             if x[0] == "tuple":
@@ -295,6 +330,44 @@ class Ev:
                 return ("bool", f_not(x[1])) if x[0] == "bool" else ("bv", x[1], tuple(neg_bit(b) for b in x[2]))
             if nm in ("clone", "into", "from", "borrow", "deref") and len(args) == 1:
                 return self.ev(args[0], fn, env)
+            # Option-valued plumbing: ("opt", condition formula, payload) = Some(payload) iff condition
+            if nm in ("then", "then_some") and len(args) == 2:
+                c = self.ev(args[0], fn, env)
+                if c[0] != "bool":
+                    raise NotEval("then on %s" % c[0])
+                pay = self.apply(args[1], [], fn, env) if nm == "then" else self.ev(args[1], fn, env)
+                return ("opt", c[1], pay)
+            if nm in ("unwrap_or", "unwrap_or_default", "is_some_and", "is_none_or", "map_or", "is_some", "is_none", "map", "filter") and args:
+                o = self.ev(args[0], fn, env)
+                if o[0] != "opt":
+                    raise NotEval("%s on %s" % (nm, o[0]))
+                cond, pay = o[1], o[2]
+                if nm == "is_some":
+                    return ("bool", cond)
+                if nm == "is_none":
+                    return ("bool", f_not(cond))
+                if nm in ("unwrap_or", "unwrap_or_default"):
+                    d = self.ev(args[1], fn, env) if nm == "unwrap_or" else ("bool", f_const(False))
+                    if pay[0] == "bool" and d[0] == "bool":
+                        return ("bool", ("ite", cond, pay[1], d[1]))
+                    raise NotEval("unwrap_or of %s" % pay[0])
+                if nm == "is_some_and":
+                    r = self.apply(args[1], [pay], fn, env)
+                    return ("bool", ("and", cond, r[1]))
+                if nm == "is_none_or":
+                    r = self.apply(args[1], [pay], fn, env)
+                    return ("bool", ("or", f_not(cond), r[1]))
+                if nm == "map_or" and len(args) == 3:
+                    d = self.ev(args[1], fn, env)
+                    r = self.apply(args[2], [pay], fn, env)
+                    if d[0] == "bool" and r[0] == "bool":
+                        return ("bool", ("ite", cond, r[1], d[1]))
+                if nm == "map" and len(args) == 2:
+                    return ("opt", cond, self.apply(args[1], [pay], fn, env))
+                if nm == "filter" and len(args) == 2:
+                    r = self.apply(args[1], [pay], fn, env)
+                    return ("opt", ("and", cond, r[1]), pay)
+                raise NotEval("option combinator %s" % nm)
             g = self.fn_of(callee)
             if g is None:
                 raise NotEval("call of %s" % callee.key())
